@@ -587,7 +587,9 @@ func (ex *Exec) mainTask(g *Gen) {
 	if err != nil {
 		if IsInjected(err) {
 			// an error fault inside Open: retry once without faults
+			ex.probes.Add("open_failed_injected", 1)
 			ex.openWindow(nil)
+			ex.persist = nil
 			err = ex.call("Open", func() error {
 				var e error
 				w, e = ex.openWAL(g, ex.cfg.CodecID, ex.cfg.SegSize)
@@ -709,7 +711,12 @@ func (ex *Exec) observe(full bool) *model.Obs {
 		e := ex.call("GetLog", func() error { return w.GetLog(i, &l) })
 		ex.want["log_entries_read"]++
 		if e != nil {
-			o.ReadErr[i] = e
+			if IsInjected(e) {
+				o.Partial = true
+				ex.probes.Add("read_failed_injected", 1)
+			} else {
+				o.ReadErr[i] = e
+			}
 		} else {
 			o.Logs[i] = &l
 		}
@@ -717,7 +724,7 @@ func (ex *Exec) observe(full bool) *model.Obs {
 			return nil
 		}
 	}
-	o.Partial = !full
+	o.Partial = o.Partial || !full
 	return o
 }
 
@@ -1294,7 +1301,9 @@ func (ex *Exec) doReopen(op OpSpec) {
 		return
 	}
 	if err != nil && IsInjected(err) {
+		ex.probes.Add("open_failed_injected", 1)
 		ex.openWindow(nil)
+		ex.persist = nil
 		err = ex.call("Open", func() error {
 			var e error
 			w, e = ex.openWAL(ex.g, ex.cfg.CodecID, seg)
